@@ -483,7 +483,17 @@ class Interp(object):
         elif isinstance(tgt, ast.Name):
             s.env[tgt.id] = val
         elif isinstance(tgt, ast.Tuple):
-            for e in tgt.elts:
+            for i, e in enumerate(tgt.elts):
+                if isinstance(e, ast.Attribute):
+                    # a.x, a.y = f(...): one store per attribute
+                    fake = ast.Assign(targets=[e], value=ast.Subscript(
+                        value=stmt.value, slice=ast.Constant(i),
+                        ctx=ast.Load()))
+                    ast.copy_location(fake, stmt)
+                    ast.fix_missing_locations(fake)
+                    self.assign(e, Opaque('unpacked from %s' % (
+                        ast.unparse(stmt.value))), s, fake)
+                    continue
                 if not isinstance(e, ast.Name):
                     self.err(stmt, 'unsupported unpacking target')
                 s.env[e.id] = Opaque('unpacked from %s' % (
@@ -737,6 +747,32 @@ class Interp(object):
             return {TRUE: FALSE, FALSE: TRUE, BOTH: BOTH}[v]
         if isinstance(test, ast.Compare) and len(test.ops) == 1:
             op = test.ops[0]
+            # p.slice[k].type == 'SEMI': the symbol of slot k is the
+            # production's
+            lt = test.left
+            if isinstance(op, (ast.Eq, ast.NotEq)) and isinstance(
+                    lt, ast.Attribute) and lt.attr == 'type' and \
+                    isinstance(lt.value, ast.Subscript) and isinstance(
+                    lt.value.value, ast.Attribute) and \
+                    lt.value.value.attr == 'slice' and self.is_p(
+                        lt.value.value.value, st) and isinstance(
+                    test.comparators[0], ast.Constant):
+                k = self.const_int_in(lt.value.slice, st)
+                if not 1 <= k <= len(self.prod.rhs):
+                    self.err(test, 'slot index out of range')
+                same = self.prod.rhs[k - 1] == test.comparators[0].value
+                if isinstance(op, ast.NotEq):
+                    same = not same
+                return TRUE if same else FALSE
+            if isinstance(op, (ast.Lt, ast.Gt, ast.LtE, ast.GtE)):
+                try:
+                    a_ = self.const_int_in(test.left, st)
+                    b_ = self.const_int_in(test.comparators[0], st)
+                except AnalysisError:
+                    self.err(test, 'unsupported ordering comparison')
+                r_ = {ast.Lt: a_ < b_, ast.Gt: a_ > b_, ast.LtE: a_ <= b_,
+                      ast.GtE: a_ >= b_}[type(op)]
+                return TRUE if r_ else FALSE
             left = self.eval1(test.left, st)
             right = self.eval1(test.comparators[0], st)
             if isinstance(op, (ast.Eq, ast.NotEq)):
@@ -1047,6 +1083,12 @@ class Interp(object):
 
     def e_Compare(self, node, st):
         return [(st, Opaque(ast.unparse(node)))]
+
+    def e_IfExp(self, node, st):
+        out = []
+        for s, verdict in self.cond(node.test, st):
+            out.extend(self.eval(node.body if verdict else node.orelse, s))
+        return out
 
     def e_Call(self, node, st):
         f = node.func
